@@ -530,8 +530,11 @@ impl Vm {
             .for_each(|it| self.heap.mark(*it));
         self.heap.sweep();
 
-        // If after GC the heap utilization is still high, grow the heap.
-        if self.heap.used_size() * 4 >= self.heap.capacity() * 3 {
+        // If after GC more than half of the heap is still in use, grow the heap. Growing only
+        // at the occupancy that makes a collection due leaves a heap that is, say, 74.9% full
+        // of live data as it is: the next collection is then due after a handful of
+        // allocations, and each one marks all of that live data again.
+        if self.heap.used_size() * 2 >= self.heap.capacity() {
             self.heap.grow();
         }
     }
